@@ -570,6 +570,7 @@ func (st *Runtime) executeList(list *ListNode) (returnValue reflect.Value) {
 
 func (st *Runtime) executeTry(try *TryNode) (returnValue reflect.Value) {
 	writer := st.Writer
+	scope, context, content := st.scope, st.context, st.content
 	buf := new(bytes.Buffer)
 
 	defer func() {
@@ -579,7 +580,10 @@ func (st *Runtime) executeTry(try *TryNode) (returnValue reflect.Value) {
 		if r == nil {
 			io.Copy(writer, buf)
 		} else {
-			// st.Writer is already set to its original value since the later defer ran first
+			// st.Writer is already set to its original value since the later defer ran first.
+			// The constructs the panic unwound through (range, if/let, yield, include) restore
+			// scope, context and content only on normal exit, so put them back here.
+			st.scope, st.context, st.content = scope, context, content
 			if try.Catch != nil {
 				if try.Catch.Err != nil {
 					st.newScope()
